@@ -156,7 +156,9 @@ def _c02_dispatcher(tier, seed):
                         "constants": props_dq.consts(events=(1, 2) if not quick else (1,), nodes=2 if quick else 3, enq=0, disp=2 if not quick else 1, depth=3, ops=ops,
                                                      nest=ops - {"pl", "hl"} if quick else ops)}],
             "worlds": [props_dq.world("rd_multi", obj=0, threading=1), props_dq.world("rd_spin_str", obj=0, threading=2, key=1, fraction=0.3, fill="0xFF"),
-                       props_dq.world("rd_single_queue", obj=1, threading=0, fraction=0.3, fill="0x00")],
+                       props_dq.world("rd_single_queue", obj=1, threading=0, fraction=0.3, fill="0x00"),
+                       # tracked mutexes / atomics: touching one that was destroyed (a list or map node freed under a running traversal) is recorded
+                       props_dq.world("rd_tracked", obj=0, threading=3), props_dq.world("rd_tracked_queue_umap", obj=1, threading=3, map_=1, fraction=0.5, fill="0xFF")],
             "nontrivial_key": "nested",
             "rule": "every transition of the bounded DQImpl model restricted to listener management, enumeration with a user function and dispatch, all of them "
                     "also issued from listeners and from forEach functions (nesting depth 3), replayed under std::mutex, SpinLock and the single-threaded policy",
@@ -184,7 +186,8 @@ def _c08_queue(tier, seed):
     return {"interp": "harness/dq_interp.cpp", "trace_module": "TraceDQ",
             "models": [{"module": "DQImpl", "tag": "lifetime-queue", "invariants": props_dq.INV,
                         "constants": props_dq.consts(nodes=1, enq=3 if quick else 4, depth=3, ops=ops, nest={"x", "nq", "cl", "tk"})}],
-            "worlds": [props_dq.world("l_val", arg=0), props_dq.world("l_cref_str_multi", arg=1, key=1, threading=1, fraction=0.3, fill="0xFF")],
+            "worlds": [props_dq.world("l_val", arg=0), props_dq.world("l_cref_str_multi", arg=1, key=1, threading=1, fraction=0.3, fill="0xFF"),
+                       props_dq.world("l_tracked_val", arg=0, threading=3, fraction=0.3, fill="0x00")],
             "nontrivial_key": "nested",
             "rule": "DQImpl with clearEvents / takeEvent / processing calls left by exceptions / recycled slots / destruction of the queue with events still pending "
                     "('zz'); TraceDQ's payload ledger: live argument objects = queued events when nothing runs, zero after destruction",
